@@ -46,6 +46,10 @@ def tasks(tier):
         t.append(('total_volume', 'plate', u))
     # Container.get_substances: the set of the container's own substances, a new set
     t.append(('container_substances', 'plate'))
+    # observers with a history: the plate has been asked before an operation; the plate the operation returns answers
+    # for its own wells (a memo carried over by the copy must not answer)
+    for op in ('fill_to', 'remove', 'transfer'):
+        t.append(('substances_history', 'plate', op))
     return t
 
 
@@ -185,6 +189,39 @@ def run(pid, what, g, *args):
             I.oblige('def[total volume]', z3.And(got - total <= half, total - got <= half), 'property',
                      note='total volume of the plate = sum over its wells of the volume of the well, each to the displayed precision')
             return out
+        if what == 'substances_history':
+            (op,) = args
+            vc.call(I, 'Plate.get_substances', [P])            # the caller has asked before
+            vc.call(I, 'Plate.get_volumes', [P])
+            I.contracts.update(PO.contracts())                   # container operations as events with fresh abstract results
+            I.__dict__['event_failures'] = False
+            w = SubV(z3.Const('water', Sub))
+            q = SegStr([NumHole(z3.Real('q')), ' ', 'uL'])
+            if op == 'fill_to':
+                out0 = vc.call(I, 'Plate.fill_to', [P, w, q])
+                R = out0.value if out0.kind == 'return' else None
+            elif op == 'remove':
+                out0 = vc.call(I, 'Plate.remove', [P, w])
+                R = out0.value if out0.kind == 'return' else None
+            else:
+                src = clib.mk_container(I, 'src', 'inf', wf=False).obj
+                out0 = vc.call(I, 'Plate.transfer', [src, P, q])
+                R = out0.value[1] if out0.kind == 'return' else None
+            if R is None:
+                return out0                                      # refusals are the business of C03/C07
+            out = vc.call(I, 'Plate.get_substances', [R])
+            if out.kind != 'return':
+                I.oblige('observers[get_substances/plate]', False, 'property', note=f'get_substances of the result raised {out.exc.cls}')
+                return out
+            v = out.value
+            x = z3.Const('x!obs', Sub)
+            rcells = [c for row in R.fields['wells'].cells for c in row]
+            if isinstance(v, SymSubSet):
+                I.oblige('observers[get_substances/plate]', v.mem[x] == z3.Or(*[c.fields['contents'].mem[x] for c in rcells]), 'property',
+                         note=f'get_substances() of the plate returned by {op} does not list the substances of its own wells')
+            else:
+                I.oblige('observers[get_substances/plate]', False, 'property', note=f'result {v!r}')
+            return out
         if what == 'container_substances':
             w0 = wells[0]
             out = vc.call(I, 'Container.get_substances', [w0])
@@ -222,5 +259,5 @@ def run(pid, what, g, *args):
         if isinstance(out, vc.Outcome) and out.kind == 'unsupported':
             res.append(vc.unsupported_result(f'plate.{what}/unsupported', case, out.note))
             continue
-        res += vc.discharge(I, {'total_volume': 'Plate.get_volume/', 'container_substances': 'Container.get_substances/'}.get(what, f'plate.get_{what}/'), case, 15000, ladder=clib.ladder)
+        res += vc.discharge(I, {'total_volume': 'Plate.get_volume/', 'container_substances': 'Container.get_substances/', 'substances_history': 'plate.history/'}.get(what, f'plate.get_{what}/'), case, 15000, ladder=clib.ladder)
     return [dict(r, name=f'{pid}/' + r['name']) for r in clib.dedupe(res)]
